@@ -471,6 +471,8 @@ def accepts_valid(ctx) -> None:
         table.append(dict(base, position=pos))
     for lab in ("P", "x" * 32):
         table.append(dict(base, rack_label=lab))
+    for fld in ("rack_id", "tube_id", "rack_type", "forced_rack_type", "liquid_class"):
+        table.append(dict(base, **{fld: "y" * 32}))  # the longest text every field must take (tube ID and forced rack type have no stated limit)
     table.append(dict(base, max_volume=950, volume=950))
     table.append(dict(base, max_volume=950.5, volume=0))
     table.append(dict(base, liquid_class="Water free dispense", rack_id="0123456789", tube_id="T1", rack_type="96 Well Microplate", forced_rack_type="Trough 100ml"))
@@ -480,7 +482,8 @@ def accepts_valid(ctx) -> None:
         kind, _ = init_model.run_function(v, {k: val for k, val in params.items() if k in v.params})
         n += 1
         if kind == "raise" and bad is None:
-            bad = {k: val for k, val in params.items() if val is not init_model.UNK and base.get(k) != val or k in ("volume", "position", "rack_label")}
+            bad = {k: (val if not (isinstance(val, str) and len(val) > 12) else f"<{len(val)} characters>") for k, val in params.items()
+                   if val is not init_model.UNK and base.get(k) != val or k in ("volume", "position", "rack_label")}
     ctx.rep.touch(v)
     ctx.rep.check(bad is None, rule, f"{v.qualname}/valid-arguments", f"none of the {n} valid argument sets of the evaluation table is refused",
                   f"the valid arguments {bad} are refused (a guard that rejects them was reached): a step that the property says must yield a record raises instead", where=v.where())
